@@ -543,6 +543,8 @@ def pipeline(ctx):
             if fam == 'year' and par == 0 and vals == calcorr.c08_oracle('ytd', None, R):
                 sig = 'zh-this-year-to-date'
             elif vals is None:
+                if fam == 'ago' and not (text.endswith('天前') or text.endswith('天后') or text.endswith('周前') or text.endswith('周后')):
+                    continue      # 以后 / 之前 …: the extractor is not bound to take the longer suffix; checked when it does
                 sig = 'zh-unrecognized-' + fam
             else:
                 sig = 'zh-relative-' + fam
